@@ -369,9 +369,13 @@ PROPS = {
             "Response::parse / termination + panic freedom for every input of at most 2 GiB",
             "Response::parse_raw_response_via_cursor / postcondition / behaves as resp_read(cursor, iteration, response) on the single-body path",
             "theorem_response_roundtrip_single / resp_read(response_bytes(v, code, reason, hs, [p], GET), 0, empty) == Done(true, {v, code, reason, hs ++ framing([p]), [part with p's body and media type]}, empty)",
+            "Range::parse_multipart_body_with_boundary / postcondition / behaves as mp_read (one mp_step per part: boundary line, Content-Type line, Content-Range line, blank line, body lines up to a line holding the boundary, two bytes popped)",
+            "theorem_response_roundtrip_multi / resp_read(response_bytes(v, code, reason, hs, parts, GET), ..) == Done(true, {v, code, reason, hs ++ [Content-Type: multipart/byteranges; boundary=String_separator], the same parts in order}, empty)",
         ],
-        "assumptions": ["single-body round trip: PROVED (theorem_response_roundtrip_single over resp_read / response_bytes; domain: registered status with its exact phrase, version word of the supported list, headers without CR / LF whose names hold no ': ', do not end in ':' and are not 'Content-Type', part media type without CR / LF that does not start with multipart/byteranges; arbitrary body bytes)",
-                        "multi-part (multipart/byteranges) round trip: NOT proved; Range::parse_multipart_body_with_boundary is proved total only; the round trip is exercised on every run by the native falsifier (300 random multi-part and single-body responses, both serialisers) - testing, not proof",
+        "assumptions": ["single-body round trip: PROVED (theorem_response_roundtrip_single; domain: registered status with its exact phrase, version word of the supported list, headers without CR / LF whose names hold no ': ', do not end in ':' and are not 'Content-Type', part media type without CR / LF that does not start with multipart/byteranges; arbitrary body bytes)",
+                        "multipart/byteranges round trip (2 or more parts): PROVED (theorem_response_roundtrip_multi; domain per part: media type non-empty, without CR / LF or white space at the ends and not holding the boundary text; first <= last <= size <= i64::MAX with the size written as a decimal number; no line of the body (as the reader splits it at LF) that is valid UTF-8 holds the text 'String_separator'; arbitrary bytes otherwise)",
+                        "stated on the bytes rather than derived: the UTF-8 bytes of the status line, of each header line and of each part header line hold no 0x0A",
+                        "assumed std contracts used by the theorems (conformance-tested): str::split / split_once / trim / to_lowercase on text without upper-case letters / parse::<i64> / to_string == decimal, String::from_utf8, Cursor::read_until / read_to_end; UTF-8 encode / decode facts are vstd's proved lemmas",
                         "Response::parse requires input of at most i32::MAX bytes (its byte counters are i32)"],
     },
     "C02": {
